@@ -155,6 +155,7 @@ def generate(seed, tier="quick", **opts):
     nops = r.randint(5, 40 if kind != "v6" else 28)
     ops = []
     hist = {"anon": [], "deanon": []}   # ids of earlier requests, for result references
+    text_hist = []                      # earlier text-level requests
     restarts = 0
     for n in range(nops):
         c = r.random()
@@ -177,6 +178,14 @@ def generate(seed, tier="quick", **opts):
             line = t.format(a=toks(r, r.choice(pools[0])), b=toks(r, r.choice(pools[0])),
                             m=r.choice(["255.255.255.0", "255.255.255.252", "0.0.0.255"]))
             op.update(op="text", i=r.choice(names), line=line + r.choice(["\n", "", " \n"]), undo=r.random() < 0.4)
+            if text_hist and r.random() < 0.35:
+                # the very text of an earlier text-level request once more, in the other direction (often on the same
+                # live instance): a per-text replacement memo must not answer across directions (seeded C02-t)
+                prev = r.choice(text_hist)
+                op.update(line=prev["line"], undo=not prev["undo"])
+                if r.random() < 0.7:
+                    op["i"] = prev["i"]
+            text_hist.append(op)
         elif c < 0.88:
             op.update(op="dump", i=r.choice(names))
         elif c < 0.94 and restarts < 2:
@@ -505,6 +514,11 @@ def check(plan):
                     V.append({"prop": "C03", "tag": "text-differs",
                               "detail": "op %s text %r undo=%s gave %r; fresh anonymizer gives %r" % (
                                   op["id"], op["line"], op["undo"], y[1], yc[1])})
+                    if op["undo"]:
+                        # an undo request answered with something other than the inverse mapping of its text
+                        V.append({"prop": "C02", "tag": "undo-differs-live",
+                                  "detail": "op %s undo of %r on a live instance gave %r; the inverse mapping (fresh process) is %r" % (
+                                      op["id"], op["line"], y[1], yc[1])})
             elif kind == "dump":
                 I = get_inst(op["i"])
                 activate(I["proc"])
